@@ -54,13 +54,11 @@ def execute(case, ctx):
     if run.exc is not None:
         # no claim if driving the same bandits through the public API raises as well (e.g. a metric that is undefined
         # for this data): the property compares reported results, there are none on either side
-        for i in range(len(cfgs)):
-            try:
-                api_reference(run, case, i, True, False)
-            except Exception as e:   # noqa
-                ctx.fired("probe.simulator_and_api_both_raise")
-                ctx.ev("both_raise", type(run.exc).__name__, type(e).__name__)
-                return
+        other = simworld.api_raises_too(run, case)
+        if other:
+            ctx.fired("probe.simulator_and_api_both_raise")
+            ctx.ev("both_raise", type(run.exc).__name__, other)
+            return
         ctx.violate("simulator-raised", 0, {"exc": type(run.exc).__name__, "msg": str(run.exc)[:200]},
                     **simworld.exc_sig(run, case, sig))
         return
